@@ -43,7 +43,7 @@ TECHNIQUE = ("Coq proof (totality incl. fuel, soundness, completeness of the eng
              "options, -o=v, per-level subcommand_precedence_over_arg and args_conflicts_with_subcommands, with the engine's pos_index "
              "and valid_arg_found proved equal to the parser's counter and flag; level correspondence) + extracted-model/implementation "
              "correspondence")
-LEVEL_TEXT = ("Machine-checked theorems (Coq 8.16, 71 pinned, all closed under the global context) about a function-by-function "
+LEVEL_TEXT = ("Machine-checked theorems (Coq 8.16, 75 pinned, all closed under the global context) about a function-by-function "
               "model of clap_complete::engine::complete: no panic site is reachable and no fuel runs out for any command, argv "
               "and index (build_full's fuel proved sufficient); in state ValueDone every option/subcommand candidate extends the "
               "word and names an option/alias/subcommand of the level reached by the shadow parse; under assert_app's uniqueness "
@@ -73,7 +73,8 @@ LEVEL_TEXT = ("Machine-checked theorems (Coq 8.16, 71 pinned, all closed under t
               "C18_flag_agreement: level, pos_index and valid_arg_found equal the parser's) and END TO END C18_candidate_accepted_pline "
               "(supersedes the round-3 line theorem: C18_cline_is_pline), including levels with args_conflicts_with_subcommands "
               "(left before their own arguments; behind one, a subcommand name is a positional value for both machines: "
-              "C18_args_conflict_levels; before/after witnesses of the finding: C18_args_conflict_before_after).  The candidate's hide "
+              "C18_args_conflict_levels; before/after witnesses of the finding: C18_args_conflict_before_after; complete_arg is told the flag: "
+              "C18_complete_arg_v_cut transfers every theorem about complete_arg, C18_no_subcommand_candidates_behind_args).  The candidate's hide "
               "flag is the DEFINITIONAL one in every state - a hidden alias of a visible option is a hidden spelling "
               "(C18_hide_flag_definitional, C18_hidden_rule_definitional).  ORDER: the final stable sort by (position of the tag, display "
               "order) is modelled (complete_model_ord); C18_sort_final_spec: its result is a permutation of its input, sorted by the key, "
@@ -318,10 +319,9 @@ def scan_prefix(root, words):
         i += 1
     if level["flags"] & UNSAFE_CMD_FLAGS:
         return None
-    # behind an argument of a level with args_conflicts_with_subcommands subcommand names are no valid continuation: the
-    # level is judged for its OPTION candidates; subcommand candidates are not judged there (third component) - complete_arg
-    # is not told the flag and still offers them; the parser answers ArgumentConflict, the value of a positional, or
-    # UnknownArgument when the positional at the counter is last(true): recorded observation, see docs/notes/C18.md
+    # behind an argument of a level with args_conflicts_with_subcommands subcommand names are no valid continuation (third
+    # component): the parser answers ArgumentConflict, takes the name as the value of a positional, or answers UnknownArgument
+    # when the positional at the counter is last(true); no subcommand candidate may be offered there and none is required
     nosubs = bool(seen_arg and "args_conflicts_with_subcommands" in level["flags"])
     return level, weak, nosubs
 
@@ -396,9 +396,12 @@ def accept_oracle(case, impl):
                     else:
                         what = "option candidate without a leading dash"
             elif cid.startswith(b"command::"):
-                if nosubs:
-                    continue
                 s = find_sub(level, v)
+                if nosubs:
+                    # behind an argument of a command whose arguments conflict with subcommands the parser does not look for
+                    # subcommands: it answers ArgumentConflict or UnknownArgument, or takes the word as a positional value
+                    what = "is a subcommand offered behind an argument of a command whose arguments conflict with subcommands " \
+                           "(the real parser: %s)" % acc.get(v)
                 if s is None or s["name"] != cid[9:]:
                     what = "does not name a subcommand of the level reached (%r)" % level["name"]
             else:
